@@ -19,8 +19,10 @@ import SoyVerif.Props.C04d
 
 namespace SoyVerif.Props.C14b
 open SoyVerif SoyVerif.Model SoyVerif.Model.JsGen SoyVerif.Spec.JsSemRef SoyVerif.Spec.JsStmt
-open SoyVerif.Props.C04c (toAst accAst)
+open SoyVerif.Props.C04c (toAst accAst Globals GlobalsAre)
 open SoyVerif.Props.C04d
+
+set_option linter.unusedSectionVars false
 
 /-! ## the analysis -/
 
@@ -37,6 +39,7 @@ def readsE : JsExpr → List Bytes
   | .nonNullElse a a' b => readsE a ++ readsE a' ++ readsE b
   | .local g => [g]
   | .optData _ => []
+  | .ijData => []
   | .member x _ => readsE x
   | .index x _ => readsE x
   | .guard g r => readsE g ++ readsE r
@@ -93,6 +96,9 @@ mutual
     | .els body => (scopedStmts D body).isSome
     | .cons c body rest => allIn D (readsE c) && (scopedStmts D body).isSome && scopedConds D rest
 end
+
+section Dev
+variable [Globals]
 
 /-! ## expressions read scope variables only -/
 
@@ -208,7 +214,13 @@ theorem toAst_reads (D : List Bytes) (sc : Scope) (hc : Covers D sc) :
   | .int _ _, j, h => by simp only [toAst, Option.some.injEq] at h; subst h; rfl
   | .str _ _ _, j, h => by simp only [toAst, Option.some.injEq] at h; subst h; rfl
   | .float _ _, _, h => by simp [toAst] at h
-  | .global _ _, _, h => by simp [toAst] at h
+  | .global _ name, j, h => by
+    unfold toAst at h
+    cases hg : assocGet? Globals.tbl name with
+    | none => simp [hg] at h
+    | some v =>
+      simp only [hg] at h
+      cases v <;> simp only [C04c.globalAst, Option.some.injEq, reduceCtorEq] at h <;> subst h <;> rfl
   | .list _ _, _, h => by simp [toAst] at h
   | .map _ _, _, h => by simp [toAst] at h
   | .neg _ a, j, h => by
@@ -241,6 +253,13 @@ theorem toAst_reads (D : List Bytes) (sc : Scope) (hc : Covers D sc) :
     · cases h
   | .dataRef _ key acc, j, h => by
     unfold toAst at h
+    split at h
+    · simp only [Option.map_eq_some_iff] at h
+      obtain ⟨j0, hacc, rfl⟩ := h
+      have := accAst_reads D acc _ j0 hacc (show allIn D (readsE JsExpr.ijData) = true from rfl)
+      split
+      · exact this
+      · exact this
     split at h
     · cases h
     · simp only [Option.map_eq_some_iff] at h
@@ -699,7 +718,12 @@ theorem no_undeclared_js_variable_partial (ae : Autoescape) (body : CmdList) (n 
   obtain ⟨D', h1, _, _⟩ := scoped_cmds ae body b!"output" _ r _ h hs hc (by simp)
   simp [h1]
 
+end Dev
+
 /-! ## non-vacuity -/
+
+section Examples
+local instance : Globals := exGlobals
 
 example : ((toCmds .on b!"output" sampleCmds ⟨[[]], 0⟩).bind fun r => scopedStmts [b!"output"] r.1) =
     some [b!"x$1", b!"output"] := rfl
@@ -714,5 +738,7 @@ example : scopedStmts [b!"output"]
 
 /-- … and so is appending to a buffer that was never declared -/
 example : scopedStmts [] (.cons (.appendLit b!"output" b!"a") .nil) = none := rfl
+
+end Examples
 
 end SoyVerif.Props.C14b
